@@ -18,6 +18,7 @@ import (
 	"strings"
 	"time"
 
+	"lssim/deep"
 	h "lssim/harness"
 	"lssim/oracle"
 	"lssim/scen"
@@ -66,6 +67,22 @@ func main() {
 		os.Exit(cmdGen(os.Args[2:]))
 	case "show":
 		os.Exit(cmdShow(os.Args[2:]))
+	case "dump":
+		sc, err := h.LoadScenario(os.Args[2])
+		if err != nil {
+			fmt.Fprintln(os.Stderr, err)
+			os.Exit(2)
+		}
+		x, _ := runScenario(sc, nil, false)
+		for _, p := range x.S.Paths {
+			fmt.Printf("=== path %d %s\n", p.Index, p.Path.Path)
+			for _, t := range p.Ctx().ReferenceTargets {
+				fmt.Println("T", deep.Dump(t, deep.Options{}))
+			}
+			for _, o := range p.Ctx().ReferenceOrigins {
+				fmt.Println("O", deep.Dump(o, deep.Options{}))
+			}
+		}
 	case "properties":
 		fmt.Println(strings.Join(oracle.Properties(), " "))
 	default:
@@ -432,8 +449,8 @@ func loadKnown(path string) *Known {
 
 // tier budgets: scenarios per worker
 func budget(prop, tier string) (count int, deadline float64) {
-	q := map[string]int{"C01": 5, "C02": 6, "C03": 6, "C04": 6, "C05": 30, "C06": 6, "C07": 20, "C12": 8, "C13": 8, "C14": 8, "C15": 150, "C16": 100, "C18": 6}
-	t := map[string]int{"C01": 80, "C02": 60, "C03": 80, "C04": 60, "C05": 150, "C06": 60, "C07": 300, "C12": 80, "C13": 80, "C14": 80, "C15": 3000, "C16": 2000, "C18": 60}
+	q := map[string]int{"C01": 5, "C02": 6, "C03": 6, "C04": 6, "C05": 30, "C06": 6, "C07": 20, "C11": 20, "C12": 8, "C13": 8, "C14": 8, "C15": 150, "C16": 100, "C18": 6}
+	t := map[string]int{"C01": 80, "C02": 60, "C03": 80, "C04": 60, "C05": 150, "C06": 60, "C07": 300, "C11": 300, "C12": 80, "C13": 80, "C14": 80, "C15": 3000, "C16": 2000, "C18": 60}
 	if tier == "thorough" {
 		if n, ok := t[prop]; ok {
 			return n, 1500
